@@ -41,8 +41,9 @@ EqualityLaw(q) ==
     [] q = "regularization_matrix" -> "block-diagonal-with-object-k-in-range-k-zero-when-unregularised"
     [] q \in {"regularization_matrix_reduced", "curvature_reg_matrix_reduced"} -> "reduced-form-deletes-exactly-the-unregularised-rows-and-columns"
     [] q \in {"curvature_matrix", "curvature_reg_matrix"} -> "curvature-plus-regularization-with-diagonal-term-in-unregularised-ranges"
+    [] q = "regularization_weights_from" -> "weights-of-index-k-are-those-of-the-kth-object-of-the-list"
     [] OTHER -> "value-is-what-the-statement-pins"
-EqualityQs == {"total_params", "param_range_list_from", "cls_list_from", "total", "has", "regularization_list", "total_regularizations",
+EqualityQs == {"regularization_weights_from", "total_params", "param_range_list_from", "cls_list_from", "total", "has", "regularization_list", "total_regularizations",
                "all_linear_obj_have_regularization", "mapping_matrix", "operated_mapping_matrix", "operated_mapping_matrix_list",
                "regularization_matrix", "regularization_matrix_reduced", "curvature_matrix", "curvature_reg_matrix",
                "curvature_reg_matrix_reduced"}
@@ -101,7 +102,8 @@ JudgeRead(T, r, rd) ==
              THEN LET CC == CCof(T) det == Det(CC, T.tot)
                   IN Cl("noise-map-squared-is-the-diagonal-of-the-inverse-of-curvature-reg-matrix",
                         det > 0 /\ \A k \in 1 .. T.tot :
-                           Abs(rd.aux[k] * det - r.S2 * T.I.g * Det(Without(CC, T.tot, k), T.tot - 1)) <= (det + 1) \div 2 + 1)
+                           /\ rd.aux[k] >= 0 /\ rd.aux[k] <= 1073741824 \div det       \* (a wrong value must be a rejection, not an overflow)
+                           /\ Abs(rd.aux[k] * det - r.S2 * T.I.g * Det(Without(CC, T.tot, k), T.tot - 1)) <= (det + 1) \div 2 + 1)
              ELSE << >>)
     [] q = "reconstruction_noise_map_dict" ->
          LET want == DictOf(Idx(T.N), LAMBDA k : Slice(T, r.e, k)) ok == KeysOK(rd.v, want)
